@@ -97,7 +97,7 @@ type bstate struct {
 	// cond: what is known when a boolean phi (a flag variable, the result of a short-circuit expression) is
 	// true / false: the facts of the incoming edges that can give it that value (snapshots, never modified)
 	cond map[*ssa.Phi]*[2]*bstate
-	flag  map[string]bool     // recv.<path> (a bool field) has this value
+	flag map[string]bool // recv.<path> (a bool field) has this value
 }
 
 func newBState() *bstate {
@@ -431,8 +431,8 @@ type bsum struct {
 	res    []bfact // per result (int results)
 	resStr []int   // per result (string results): slen, bInf unknown
 	cell   map[int]bfact
-	cdel   map[int]int // *int parameter j grows by at least cdel[j] (absent: unknown)
-	resGe  map[int]int // int result k is, on every return, the int parameter resGe[k] plus a non-negative constant
+	cdel   map[int]int       // *int parameter j grows by at least cdel[j] (absent: unknown)
+	resGe  map[int]int       // int result k is, on every return, the int parameter resGe[k] plus a non-negative constant
 	when   [2]map[int]*bimpl // [0]=false, [1]=true; per bool result index
 }
 
@@ -459,6 +459,7 @@ type bReq struct {
 }
 
 type bndEngine struct {
+	entryL   int // parameter mode: lower bound of len(seq) guaranteed by the call context (0: none)
 	c        *Ctx
 	pkgPath  string
 	recv     *types.Named
@@ -1547,6 +1548,9 @@ func (e *bndEngine) entryState(f *ssa.Function) *bstate {
 	}
 	if e.seq != nil {
 		st.cur[e.seq] = true
+		if e.entryL > 0 {
+			st.L = e.entryL // parameter mode for one call context: the sequence is at least this long
+		}
 	}
 	if e.open[f] {
 		return st
@@ -1741,6 +1745,22 @@ func (e *bndEngine) transfer(f *ssa.Function, b *ssa.BasicBlock, st *bstate, pos
 						}
 						if isStringType(x.Type()) && s.resStr[x.Index] < bInf {
 							st.slen[x] = s.resStr[x.Index]
+						}
+					}
+				}
+				// a plain scanner function that is handed the whole input (text, n := scanShortString(l.chunk)): its int
+				// results are bounded relative to the length of that parameter — the parameter-mode summary under the
+				// length this call site guarantees, the parameter's length being the length of the input here
+				if g := call.Call.StaticCallee(); g != nil && g.Blocks != nil && g.Signature.Recv() == nil && e.seq == nil && isIntType(x.Type()) {
+					for j, a := range call.Call.Args {
+						if j < len(g.Params) && st.cur[a] && isByteSeqType(g.Params[j].Type()) {
+							if rs := e.paramResult(g, g.Params[j], x.Index, st.L); rs != bTop {
+								cur, has := st.val[x]
+								if !has {
+									cur = bTop
+								}
+								st.val[x] = cur.meet(rs)
+							}
 						}
 					}
 				}
@@ -2569,7 +2589,6 @@ func eqPreMap(a, b map[*ssa.Function]*bpre) bool {
 	return true
 }
 
-
 // resultGeParam: on every return of f, int result k is one int parameter of f plus a non-negative constant (through
 // phis): the index of that parameter
 func resultGeParam(f *ssa.Function, k int) (int, bool) {
@@ -2629,4 +2648,29 @@ func resultGeParam(f *ssa.Function, k int) (int, bool) {
 		}
 	}
 	return 0, false
+}
+
+// paramResult: bounds of int result k of the plain function g relative to the length of its byte-sequence parameter p,
+// computed by the parameter-mode engine for a sequence of at least minLen bytes (cached); bTop when that engine does not
+// stabilise
+var bndParamResCache = map[[3]interface{}]*bsum{}
+
+func (e *bndEngine) paramResult(g *ssa.Function, p *ssa.Parameter, k int, minLen int) bfact {
+	if minLen > 2 {
+		minLen = 2 // the scanners only ever need "not empty" / "two bytes": keeps the cache small
+	}
+	key := [3]interface{}{g, p, minLen}
+	sm, ok := bndParamResCache[key]
+	if !ok {
+		pe := newBndParamEngine(e.c, g, p)
+		pe.entryL = minLen
+		if pe.run() {
+			sm = pe.sum[g]
+		}
+		bndParamResCache[key] = sm
+	}
+	if sm == nil || !sm.set || k >= len(sm.res) {
+		return bTop
+	}
+	return sm.res[k]
 }
